@@ -80,7 +80,7 @@ pub fn gen_c07(o: &mut Out, tier: &str, seed: u64) {
                 // special statements (identity auditor key, fee at the cap): accepted, and every statement bit
                 // still bound; the challenge values are compared with the model's on each of these
                 o.op_exp(&format!("{}.accepted", variant), "A", &format!("verify {} {}", instr, hex(&b)));
-                for bit in positions(&mut r, ctx_len(instr), false, true) {
+                for bit in positions(&mut r, b.len(), false, true) {
                     let mut m = b.clone();
                     m[bit / 8] ^= 1 << (bit % 8);
                     o.op_exp(&format!("{}.bitflip", variant), "R", &format!("verify {} {}", instr, hex(&m)));
